@@ -14,7 +14,7 @@ from vf.common.harness import Result
 ID = "C16"
 KEYS = ["a", "b", "c", "d"]
 RULE = (
-    "Histories (3-25 steps) over a forest of streams on 1-2 datasets (untyped, and typed with a MetaData-adding "
+    "Histories (6-30 steps) over a forest of streams on 1-2 datasets (untyped, and typed with a MetaData-adding "
     "callback): QMetaData with 0-3 keys from a 4-key pool (new key, repeated key with equal/different value, "
     "consecutive calls, on roots and derived streams), Select/Where/SelectMany/MetaData/result terminals, branching "
     "from any earlier stream, value(). Model = per-stream dict (parent's dict updated by own call); invariant after "
@@ -26,7 +26,7 @@ ASSUMPTIONS = [
     "Executors are stepped by hand through value_async (no threads); the received AST is compared with the twin's "
     "by ast.dump and calc_ast_hash.",
 ]
-BUDGET = {"quick": (4, 300), "thorough": (16, 4000)}
+BUDGET = {"quick": (8, 300), "thorough": (16, 4000)}
 
 LAMBDAS = {
     "select": ["lambda e: e.jets()", "lambda e: e.met + 1", "lambda e: (e.x, e.y)", "lambda e: {'p': e.pt, 'q': e.eta}", "lambda j: j.jets().Select(lambda t: t.pt())"],
@@ -41,7 +41,7 @@ def _op(draw):
     k = draw(st.integers(0, 11))
     on = draw(st.one_of(st.just(-1), st.just(-1), st.just(-2), st.integers(0, 40)))
     if k <= 4:
-        keys = draw(st.lists(st.sampled_from(KEYS), max_size=3, unique=True))
+        keys = draw(st.lists(st.sampled_from(KEYS), min_size=draw(st.sampled_from([0, 1, 1, 1, 1, 2])), max_size=3, unique=True))
         return {"op": "qmd", "on": on, "d": {kk: draw(_vals) for kk in keys}}
     if k <= 6:
         return {"op": "select", "on": on, "f": draw(st.integers(0, len(LAMBDAS["select"]) - 1))}
@@ -58,7 +58,7 @@ def _op(draw):
 
 @st.composite
 def _case(draw, maxlen):
-    return {"roots": draw(st.integers(1, 2)), "ops": draw(st.lists(_op(), min_size=3, max_size=maxlen))}
+    return {"roots": draw(st.integers(1, 2)), "ops": draw(st.lists(_op(), min_size=6, max_size=maxlen))}
 
 
 def strategy(tier):
